@@ -708,6 +708,13 @@ class CodeGen:
                 # TODO: the case of speculation in bool_expr_branch can
                 #  be optimized, especially eg: if (f() ?? true) {}
                 end_speculation = self.add_label('end_speculation')
+                # Assignments to globals evaluate straight into the
+                # variable.  The right value is written before the left
+                # side runs, so that must not be observable: speculate
+                # in a register instead.
+                if r_out not in (self.r0, self.r1, self.r2):
+                    r_out = self.r0
+                    result = asm.State(r_out)
                 right_bubble = yield from self.eval_expr(r_out, expr.right, keep=True)
                 yield from right_bubble.value.to(r_out)
                 yield asm.Jump(end_speculation)
